@@ -117,6 +117,18 @@ func (c *Ctx) intrinsic(fn *ssa.Function, name string, args []Value) (Value, boo
 		c.choices[nm] = i
 		c.inputOrder = append(c.inputOrder, nm)
 		return c.goInt(int64(i)), true
+	case "verifBigToFloat":
+		x := c.bigOf(args[0])
+		if c.IntMode {
+			return FPFromInt(x), true
+		}
+		return FPFromBV(x, true), true
+	case "verifFloatToBig":
+		f := args[0].(*Term)
+		if c.IntMode {
+			c.unsupported("verifFloatToBig in int mode")
+		}
+		return c.newBig(FPToBV(f, c.BigW, true)), true
 	case "verifBound":
 		// verifBound(quick, thorough int) int
 		return args[c.Ex.Tier], true
@@ -627,6 +639,75 @@ func registerBigModels() {
 	}
 }
 
+func (c *Ctx) bigFloatOf(v Value) *BigFloatVal {
+	p := v.(Ptr)
+	if p.IsNil() {
+		c.goPanic("nil", "nil *big.Float dereference")
+	}
+	b, ok := p.load().(*BigFloatVal)
+	if !ok {
+		c.unsupported("big.Float cell holds %T", p.load())
+	}
+	return b
+}
+
+// cmpFloatInt: exact three-way comparison of a non-NaN double with an integer.
+func (c *Ctx) cmpFloatInt(f, n *Term) *Term {
+	if c.IntMode {
+		c.unsupported("big.Float comparison in int mode")
+	}
+	W := c.BigW
+	lim := FPConst(math.Ldexp(1, W-2))
+	nlim := FPConst(-math.Ldexp(1, W-2))
+	// the integer must be small enough for the sign of a huge double to decide
+	nl := BVConst(pow2(W-2), W)
+	c.modelGuard(And(BVSlt(BVNeg(nl), n), BVSlt(n, nl)), "big.Float.Cmp: integer magnitude exceeds the model width")
+	fl := FPToBV(FPRound("RTN", f), W, true)
+	ce := FPToBV(FPRound("RTP", f), W, true)
+	m1, z, p1 := c.goInt(-1), c.goInt(0), c.goInt(1)
+	return Ite(FPLe(lim, f), p1, Ite(FPLe(f, nlim), m1, Ite(BVSlt(fl, n), m1, Ite(BVSlt(n, ce), p1, z))))
+}
+
+func init() {
+	m := models
+	m["(*math/big.Float).SetInt"] = func(c *Ctx, fn *ssa.Function, a []Value) Value {
+		a[0].(Ptr).store(&BigFloatVal{Int: c.bigOf(a[1])})
+		return a[0]
+	}
+	m["(*math/big.Float).SetFloat64"] = func(c *Ctx, fn *ssa.Function, a []Value) Value {
+		f := a[1].(*Term)
+		c.panicUnless(Not(FPIsNaN(f)), "bigfloat", "big.Float.SetFloat64(NaN) panics with ErrNaN")
+		a[0].(Ptr).store(&BigFloatVal{FP: f})
+		return a[0]
+	}
+	m["(*math/big.Float).Float64"] = func(c *Ctx, fn *ssa.Function, a []Value) Value {
+		x := c.bigFloatOf(a[0])
+		acc := c.mkInt64(0, 8, true)
+		if x.FP != nil {
+			return TupleVal{x.FP, acc}
+		}
+		if c.IntMode {
+			return TupleVal{FPFromInt(x.Int), acc}
+		}
+		return TupleVal{FPFromBV(x.Int, true), acc}
+	}
+	m["(*math/big.Float).Cmp"] = func(c *Ctx, fn *ssa.Function, a []Value) Value {
+		x, y := c.bigFloatOf(a[0]), c.bigFloatOf(a[1])
+		m1, z, p1 := c.goInt(-1), c.goInt(0), c.goInt(1)
+		switch {
+		case x.FP != nil && y.FP != nil:
+			return Ite(FPLt(x.FP, y.FP), m1, Ite(FPLt(y.FP, x.FP), p1, z))
+		case x.Int != nil && y.Int != nil:
+			return Ite(c.bigLt(x.Int, y.Int), m1, Ite(Eq(x.Int, y.Int), z, p1))
+		case x.FP != nil:
+			return c.cmpFloatInt(x.FP, y.Int)
+		default:
+			r := c.cmpFloatInt(y.FP, x.Int)
+			return Ite(Eq(r, m1), p1, Ite(Eq(r, p1), m1, z))
+		}
+	}
+}
+
 // modelGuard: condition under which a library model is exact. If it can fail
 // the path is outside the model: reported as inconclusive, path continues under the guard.
 func (c *Ctx) modelGuard(ok *Term, what string) {
@@ -828,6 +909,41 @@ func registerLibModels() {
 		// NaN has many encodings; the canonical one is assumed
 		c.addPC(Eq(FPFromBits(b), x))
 		return b
+	}
+	m["math.Ldexp"] = func(c *Ctx, fn *ssa.Function, a []Value) Value {
+		frac, exp := a[0].(*Term), a[1].(*Term)
+		if frac.IsConst() && exp.IsConst() {
+			return FPConst(math.Ldexp(frac.F, int(exp.SignedVal().Int64())))
+		}
+		if c.IntMode {
+			c.unsupported("math.Ldexp in int mode")
+		}
+		// exact power of two as a double: exponent field = exp + 1023, valid for -1022 <= exp <= 1023
+		inRange := And(BVSle(BVConst64(-1022, 64), exp), BVSle(exp, BVConst64(1023, 64)))
+		c.modelGuard(inRange, "math.Ldexp exponent outside [-1022,1023] is outside the model")
+		e11 := Extract(10, 0, BVAdd(exp, BVConst64(1023, 64)))
+		bits := Concat(Concat(BVConst64(0, 1), e11), BVConst64(0, 52))
+		return FPMul(frac, FPFromBits(bits))
+	}
+	m["math.Frexp"] = func(c *Ctx, fn *ssa.Function, a []Value) Value {
+		f := a[0].(*Term)
+		if f.IsConst() {
+			fr, ex := math.Frexp(f.F)
+			return TupleVal{FPConst(fr), c.goInt(int64(ex))}
+		}
+		if c.IntMode {
+			c.unsupported("math.Frexp in int mode")
+		}
+		special := Or(FPIsNaN(f), FPIsInf(f), FPEq(f, FPConst(0)))
+		if c.decide(special) {
+			return TupleVal{f, c.goInt(0)}
+		}
+		b := Var(c.freshName("fbits"), SBV(64))
+		c.addPC(Eq(FPFromBits(b), f))
+		e := Extract(62, 52, b)
+		c.modelGuard(Not(Eq(e, BVConst64(0, 11))), "math.Frexp of a subnormal is outside the model")
+		fbits := Concat(Concat(Extract(63, 63, b), BVConst64(1022, 11)), Extract(51, 0, b))
+		return TupleVal{FPFromBits(fbits), BVSub(ZeroExt(53, e), BVConst64(1022, 64))}
 	}
 	m["math.Mod"] = func(c *Ctx, fn *ssa.Function, a []Value) Value {
 		x, y := a[0].(*Term), a[1].(*Term)
